@@ -35,6 +35,17 @@ def _cmp(a, b, na, nb, op, cfg, where):
 
 
 def observe(sess, hist, op, exc, valid, reason, pre, acc):
+    from .. import env as _env
+
+    try:
+        with _env.time_limit(5):
+            return _observe(sess, hist, op, exc, valid, reason, pre, acc)
+    except _env.LibraryCallTimeout as e:
+        raise core.Violation("read-does-not-return", kcommon.sig(PROP, "read-does-not-return", op, sess.cfg), None,
+                             f"after {len(hist)} calls: {e} (blocks in this exploration are small)")
+
+
+def _observe(sess, hist, op, exc, valid, reason, pre, acc):
     cfg = sess.cfg
     where = f"after {[kdriver.op_str(o) for o in hist]}"
     tdf = sess.tdf
